@@ -4,18 +4,27 @@
 
   Model: Sio/Model/Sched.lean with `atomicGate = true` (asyncio: `is_connected`+`pre_disconnect`
   are one step, nothing can run between them).  `st0` is ANY initial state (`Init`): any number of
-  tasks of any kinds (`api`, `clientDisc`, `lost` with any namespace snapshot, `conn`) at their
-  first program counter, the sid connected to any set of namespaces, any set of namespaces kept
-  alive by other clients.  `sched : List Nat` is ANY schedule — any length, any task indices
-  (indices of finished tasks / out of range are no-ops).  Since every prefix of a schedule is a
-  schedule, a statement about `run true st0 sched` for all `sched` is a statement about every
-  intermediate state of every run.
+  tasks of any kinds (`api`, `clientDisc`, `lost` with any namespace snapshot, `conn`, and `refuse` —
+  a CONNECT whose connect handler refuses while the others are under way) at their first program
+  counter, the sid connected to any set of namespaces, any set of namespaces kept alive by other
+  clients.  `sched : List Nat` is ANY schedule — any length, any task indices (indices of finished
+  tasks / out of range are no-ops).  Since every prefix of a schedule is a schedule, a statement
+  about `run true st0 sched` for all `sched` is a statement about every intermediate state of every
+  run.
+
+  The refusing CONNECT (`_handle_connect`, `if success is False:`) is itself a terminating path of
+  the session it registered, one that skips the disconnect handler: handler decides → gate
+  (`is_connected` + `pre_disconnect`) → send the refusal → `manager.disconnect`.  `marks n` is the
+  ghost record of the kinds of the tasks that passed the gate of namespace `n`; "the gate of `n` was
+  won by a refusal" is `marks n = [.refuse]`.
 -/
 import Sio.Lemmas.Sched
 namespace Sio.C04sched
 open Sio.Sched
 
-/-- The four-phase invariant holds after every schedule (= at every step of every schedule). -/
+/-- The phase invariant (four phases of a session ended by a terminating cause, three of a session
+    ended by its own refused CONNECT) holds after every schedule (= at every step of every
+    schedule). -/
 theorem async_inv (st0 : St) (h0 : Init st0) (sched : List Nat) :
     Inv st0.sh.mem (run true st0 sched) :=
   (run_inv_atomic st0.sh.mem sched st0 (init_inv st0 h0).1 (init_inv st0 h0).2).1
@@ -26,40 +35,113 @@ theorem async_inv_every_step (st0 : St) (h0 : Init st0) (sched : List Nat) (k : 
   async_inv st0 h0 (sched.take k)
 
 /-- **Exactly once under every asyncio interleaving.**  For every schedule of any number of
-    concurrent terminating tasks:
+    concurrent terminating tasks, refusing CONNECTs included:
     * the disconnect handler has run at most once per (sid, namespace) — at every step;
     * no task has raised and `_handle_eio_disconnect` has swallowed nothing — at every step;
     * at quiescence, for every namespace the sid was connected to and that at least one task
-      targets: the handler ran exactly once, the sid is in no room and not pending;
+      targets: the sid is in no room and not pending, and EITHER a terminating cause won the gate,
+      the handler ran exactly once and no refusal was sent, OR a refusing CONNECT won the gate, the
+      refusal was sent exactly once and the handler did not run; when no refusing CONNECT has the
+      namespace on its list, the handler ran exactly once;
     * a namespace the sid was not connected to: no handler call, no trace;
-    * namespaces no task targets are unaffected (same membership, no call, nothing pending). -/
+    * namespaces no task targets are unaffected (same membership, no call, nothing pending, no
+      refusal, nobody passed the gate). -/
 theorem async_disconnect_once (st0 : St) (h0 : Init st0) (sched : List Nat) :
     (∀ n, ncalls (run true st0 sched) n ≤ 1)
     ∧ anyRaised (run true st0 sched) = false
     ∧ (run true st0 sched).sh.contained = 0
     ∧ (allDone (run true st0 sched) = true → ∀ n, st0.sh.mem n = true → targeted st0 n = true →
-        ncalls (run true st0 sched) n = 1 ∧ residue (run true st0 sched) n = false)
+        residue (run true st0 sched) n = false ∧
+        ((ncalls (run true st0 sched) n = 1 ∧ (run true st0 sched).sh.refusals n = 0 ∧
+            ∃ k, k ≠ Kind.refuse ∧ (run true st0 sched).sh.marks n = [k]) ∨
+         (ncalls (run true st0 sched) n = 0 ∧ (run true st0 sched).sh.refusals n = 1 ∧
+            (run true st0 sched).sh.marks n = [Kind.refuse])) ∧
+        (refuseTargets st0 n = false → ncalls (run true st0 sched) n = 1))
     ∧ (∀ n, st0.sh.mem n = false →
         ncalls (run true st0 sched) n = 0 ∧ residue (run true st0 sched) n = false)
     ∧ (∀ n, targeted st0 n = false →
         (run true st0 sched).sh.mem n = st0.sh.mem n ∧ ncalls (run true st0 sched) n = 0 ∧
-        (run true st0 sched).sh.pend n = 0) :=
+        (run true st0 sched).sh.pend n = 0 ∧ (run true st0 sched).sh.refusals n = 0 ∧
+        (run true st0 sched).sh.marks n = []) :=
   conclusions true st0 h0 sched (fun pre _ => async_inv st0 h0 pre)
 
-/-- at most once, in the words of the property (DESIGN's name `C04.disconnect_once_sched`) -/
+/-- at most once, in the words of the property (DESIGN's name `C04.disconnect_once_sched`): at every
+    step at most one handler call; at quiescence, for a targeted namespace of the sid: no trace, the
+    handler count is 1 or — when a refusal was sent — 0; it is 0 exactly when the gate was won by a
+    refusing CONNECT, 1 exactly when it was won by a terminating cause; and it is 1 whenever no
+    refusing CONNECT has the namespace on its list. -/
 theorem disconnect_once_sched (st0 : St) (h0 : Init st0) (sched : List Nat) (n : Ns) :
     ncalls (run true st0 sched) n ≤ 1 ∧
     (allDone (run true st0 sched) = true → st0.sh.mem n = true → targeted st0 n = true →
-      ncalls (run true st0 sched) n = 1 ∧ (run true st0 sched).sh.mem n = false ∧
-      (run true st0 sched).sh.pend n = 0) := by
+      (ncalls (run true st0 sched) n = 1 ∨
+        (ncalls (run true st0 sched) n = 0 ∧ (run true st0 sched).sh.refusals n = 1)) ∧
+      ((run true st0 sched).sh.calls n = [] ↔ (run true st0 sched).sh.marks n = [Kind.refuse]) ∧
+      (ncalls (run true st0 sched) n = 1 ↔
+        ∃ k, k ≠ Kind.refuse ∧ (run true st0 sched).sh.marks n = [k]) ∧
+      (refuseTargets st0 n = false → ncalls (run true st0 sched) n = 1) ∧
+      (run true st0 sched).sh.mem n = false ∧ (run true st0 sched).sh.pend n = 0) := by
   obtain ⟨h1, _, _, h4, _, _⟩ := async_disconnect_once st0 h0 sched
   refine ⟨h1 n, fun hd hm ht => ?_⟩
-  obtain ⟨q1, q2⟩ := h4 hd n hm ht
+  obtain ⟨q2, q, qr⟩ := h4 hd n hm ht
   simp only [residue, Bool.or_eq_false_iff, decide_eq_false_iff_not] at q2
-  exact ⟨q1, q2.1, by omega⟩
+  refine ⟨?_, ?_, ?_, qr, q2.1, by omega⟩
+  · rcases q with ⟨qa, _, _⟩ | ⟨qa, qb, _⟩
+    · exact Or.inl qa
+    · exact Or.inr ⟨qa, qb⟩
+  · rcases q with ⟨qa, _, k, hk, hm⟩ | ⟨qa, _, hm⟩
+    · constructor
+      · intro hc; simp [ncalls, hc] at qa
+      · intro hx; rw [hm] at hx; simp at hx; exact absurd hx hk
+    · exact ⟨fun _ => hm, fun _ => List.eq_nil_of_length_eq_zero qa⟩
+  · rcases q with ⟨qa, _, k, hk, hm⟩ | ⟨qa, _, hm⟩
+    · exact ⟨fun _ => ⟨k, hk, hm⟩, fun _ => qa⟩
+    · constructor
+      · intro hx; omega
+      · rintro ⟨k, hk, hx⟩; rw [hm] at hx; simp at hx; exact absurd hx.symm hk
+
+/-- **A refused connection is never reported as ended.**  Once a refusing CONNECT has passed the
+    gate of namespace `n` — after the prefix `s1` a task of kind `refuse` sits between its
+    `pre_disconnect` and the end of its `manager.disconnect` (`refusedPast`), or the gate record of
+    `n` names a refusal — no continuation `s2` of the schedule, whatever the other tasks do, adds a
+    disconnect-handler call for `n`; and the refusal is the only task that ever passed that gate. -/
+theorem refused_never_notified_after (st0 : St) (h0 : Init st0) (s1 s2 : List Nat) (n : Ns)
+    (h : (run true st0 s1).tasks.any (refusedPast n) = true ∨
+         Kind.refuse ∈ (run true st0 s1).sh.marks n) :
+    (run true st0 (s1 ++ s2)).sh.calls n = [] ∧
+    (run true st0 (s1 ++ s2)).sh.marks n = [Kind.refuse] := by
+  apply refused_sticky true st0 s1 s2 n (async_inv st0 h0 (s1 ++ s2))
+  rcases h with h | h
+  · rw [inv_refusedPast _ _ (async_inv st0 h0 s1) n h]; omega
+  · exact List.count_pos_iff.mpr h
+
+/-- **The gate is passed at most once, refusals included.**  At every step of every schedule, for
+    every namespace: at most one task has ever passed the gate (so at most one terminating cause
+    passes it before the connect handler answers, and none after a refusal passed); every handler
+    call belongs to a passing task that is not a refusal; a refusal is sent only by a refusing
+    CONNECT that passed; when a terminating cause `k` has passed, it is the only one and no refusal
+    is ever sent for that session; when a refusal has passed, it is the only one and the handler is
+    not called. -/
+theorem refused_before_gate (st0 : St) (h0 : Init st0) (sched : List Nat) (n : Ns) :
+    ((run true st0 sched).sh.marks n).length ≤ 1
+    ∧ ncalls (run true st0 sched) n + nref ((run true st0 sched).sh.marks n)
+        ≤ ((run true st0 sched).sh.marks n).length
+    ∧ (run true st0 sched).sh.refusals n ≤ nref ((run true st0 sched).sh.marks n)
+    ∧ (∀ k, k ≠ Kind.refuse → k ∈ (run true st0 sched).sh.marks n →
+        (run true st0 sched).sh.marks n = [k] ∧ (run true st0 sched).sh.refusals n = 0)
+    ∧ (Kind.refuse ∈ (run true st0 sched).sh.marks n →
+        (run true st0 sched).sh.calls n = [] ∧ (run true st0 sched).sh.marks n = [Kind.refuse]) := by
+  obtain ⟨g1, g2, g3, g4⟩ := gate_facts _ _ (async_inv st0 h0 sched) n
+  refine ⟨g1, g2, g3, ?_, g4⟩
+  intro k hk hmem
+  have hl : (run true st0 sched).sh.marks n = [k] := marks_single g1 hmem
+  refine ⟨hl, ?_⟩
+  rw [hl] at g3
+  have : nref [k] = 0 := by cases k <;> simp_all [nref]
+  omega
 
 /-- **Frame for bystanders.**  A task that is not a terminating path of this sid — in the model: a
-    task at `chandler` / `csend` (a CONNECT being answered), in the harness also: a refused CONNECT
+    task at `chandler` / `csend` (a CONNECT being answered; for a refusing CONNECT: its connect
+    handler deciding, before its `is_connected` test), in the harness also: a refused CONNECT
     of another transport, the disconnect of another client of the namespace, a repeated CONNECT or an
     EVENT of the same transport — changes none of the sid's shared variables, whatever the other
     tasks are doing; so `async_disconnect_once` holds verbatim with any number of such steps
@@ -85,7 +167,40 @@ example : allDone (run true ex0 [0, 1, 2, 3, 0, 2, 0, 2, 0, 2, 3, 2]) = true
     ∧ ncalls (run true ex0 [0, 1, 2, 3, 0, 2, 0, 2, 0, 2, 3, 2]) 0 = 1
     ∧ (run true ex0 [0, 1, 2, 3, 0, 2, 0, 2, 0, 2, 3, 2]).sh.calls 0 = [.api]
     ∧ (run true ex0 [0, 1, 2, 3, 0, 2, 0, 2, 0, 2, 3, 2]).sh.calls 1 = [.lost]
-    ∧ targeted ex0 0 = true ∧ targeted ex0 1 = true ∧ targeted ex0 3 = false := by decide
+    ∧ targeted ex0 0 = true ∧ targeted ex0 1 = true ∧ targeted ex0 3 = false
+    ∧ refuseTargets ex0 0 = false := by decide
+
+/-- a refusing CONNECT for namespace 0 (task 0) racing with `disconnect()` (task 1) and a transport
+    loss over both namespaces (task 2) -/
+def ex1 : St := mkSt [(.refuse, [0]), (.api, [0]), (.lost, [0, 1])] [0, 1] []
+
+example : Init ex1 := mkSt_init _ _ _
+
+/-- the refusal wins the gate (handler decides, `is_connected`+`pre_disconnect`); `disconnect()` and
+    the loss arrive while the refusal is being sent and find the session no longer connected: no
+    disconnect handler for namespace 0, the refusal is sent once, no trace; namespace 1 is ended by
+    the loss -/
+example : allDone (run true ex1 [0, 0, 1, 2, 0, 0, 2, 2, 2]) = true
+    ∧ (run true ex1 [0, 0, 1, 2, 0, 0, 2, 2, 2]).sh.calls 0 = []
+    ∧ (run true ex1 [0, 0, 1, 2, 0, 0, 2, 2, 2]).sh.refusals 0 = 1
+    ∧ (run true ex1 [0, 0, 1, 2, 0, 0, 2, 2, 2]).sh.marks 0 = [.refuse]
+    ∧ (run true ex1 [0, 0, 1, 2, 0, 0, 2, 2, 2]).sh.calls 1 = [.lost]
+    ∧ residue (run true ex1 [0, 0, 1, 2, 0, 0, 2, 2, 2]) 0 = false
+    ∧ targeted ex1 0 = true ∧ refuseTargets ex1 0 = true ∧ refuseTargets ex1 1 = false := by decide
+
+/-- `disconnect()` passes the gate while the connect handler is still deciding; the refusal then
+    finds the session already going away and returns: handler once (reason: the api), no refusal -/
+example : allDone (run true ex1 [0, 1, 0, 1, 1, 1, 2, 2, 2, 2]) = true
+    ∧ (run true ex1 [0, 1, 0, 1, 1, 1, 2, 2, 2, 2]).sh.calls 0 = [.api]
+    ∧ (run true ex1 [0, 1, 0, 1, 1, 1, 2, 2, 2, 2]).sh.refusals 0 = 0
+    ∧ (run true ex1 [0, 1, 0, 1, 1, 1, 2, 2, 2, 2]).sh.marks 0 = [.api] := by decide
+
+/-- the hypotheses of `refused_never_notified_after` are met after the prefix `[0, 0]` (both forms) -/
+example : (run true ex1 [0, 0]).tasks.any (refusedPast 0) = true
+    ∧ Kind.refuse ∈ (run true ex1 [0, 0]).sh.marks 0 := by decide
+
+/-- the hypothesis of the cause clause of `refused_before_gate` is met -/
+example : Kind.api ∈ (run true ex1 [0, 1]).sh.marks 0 := by decide
 
 /-- the invariant is not trivially true: a state with two tasks past the gate violates it -/
 example : ¬ Inv (fun _ => true)
@@ -94,5 +209,14 @@ example : ¬ Inv (fun _ => true)
   intro h
   have := h.phase 0
   simp [Phase, cnt, cntL, cls, mkShared, ncalls] at this
+
+/-- nor with refusals: a refusing CONNECT past the gate together with a handler call violates it -/
+example : ¬ Inv (fun _ => true)
+    { tasks := [⟨.refuse, [0], .cleanup⟩],
+      sh := { (mkShared [0] []) with pend := fun _ => 1, calls := fun _ => [.api],
+                                     marks := fun _ => [.refuse], refusals := fun _ => 1 } } := by
+  intro h
+  have := h.phase 0
+  simp [Phase, cnt, cntL, cls, mkShared, ncalls, nref] at this
 
 end Sio.C04sched
